@@ -167,7 +167,13 @@ def _scan_harnesses():
     return out
 
 
-HARNESS_OVERRIDES = {}
+HARNESS_OVERRIDES = {
+    'ctr_limit_b4w2_n3': {'units': ['ctr'], 'props': ['C11', 'C13'], 'kani': True,
+                          'bounds': 'Ctr32BE over 4-byte blocks (width 2): start anywhere in the last 9 bytes before the keystream limit, request length 0..12; '
+                                    'success iff it fits, buffer and position untouched on failure; all IVs / data / cipher outputs symbolic'},
+    'ctr_seekpast_b4w2_n2': {'units': ['ctr'], 'props': ['C11'], 'kani': False,
+                             'bounds': 'Ctr32BE over 4-byte blocks: seek 1..3 bytes INTO block 2^32-1, then an 8-byte request: one of the two must fail'},
+}
 
 
 class _Lazy(dict):
